@@ -1,6 +1,7 @@
 ------------------------------ MODULE O2OEnum ------------------------------
 (* C02: enum conversions, requirement layer (DESIGN Appendix C).
-   in == [vs |-> Seq([shape |-> "unit"|"tuple"|"named", it |-> VItem, fs |-> Seq(FItem)]), dflt |-> BOOLEAN] *)
+   in == [vs |-> Seq([shape |-> "unit"|"tuple"|"named", it |-> VItem, fs |-> Seq(FItem)]), dflt |-> BOOLEAN,
+          eg |-> Nat]        \* enum-level #[ghosts(X<j>: {..})] entries: counterpart-only variants converted to a given value by From *)
 EXTENDS O2OSyntax, TLC
 VItems == {"none", "ren", "ghostd", "ghost", "hint_tuple", "hint_struct", "hint_unit"}
 FItems == {"none", "ren", "expr", "ghostd"}
@@ -35,6 +36,10 @@ WellFormed(in) ==
   /\ (\E i \in DOMAIN in.vs : in.vs[i].it = "ghost") => in.dflt
   /\ (\E i \in DOMAIN in.vs : ~IsGhostV(in.vs[i]))
 
+\* From of a counterpart-only variant X<j>: the value of the enum-level ghosts entry (observable as own variant marker "EG<j>")
+\* (modelled through a dedicated unit variant of the deriving enum that is itself a ghost for Into)
+Cell(in, i, k) == [kind |-> k, shape |-> in.vs[i].shape, cform |-> CForm(in.vs[i]), vitem |-> in.vs[i].it,
+                   idx_member_no_action |-> in.vs[i].shape = "tuple" /\ CForm(in.vs[i]) # "named" /\ \E j \in DOMAIN in.vs[i].fs : in.vs[i].fs[j] = "ren"]
 \* From: counterpart variant i (non-ghost) with leaves "D.<cf>"  ->  own variant i
 FromExp(in, i) ==
   LET v == in.vs[i] IN
